@@ -1,6 +1,7 @@
 package app
 
 import (
+	"bytes"
 	"encoding/json"
 	"fmt"
 	"io"
@@ -55,6 +56,12 @@ func (s *Server) laURLHandlerFunc(w http.ResponseWriter, r *http.Request) {
 			msg := "id16FromBase64 error"
 			log.Error(msg, "err", err)
 			http.Error(w, msg, http.StatusInternalServerError)
+			return
+		}
+		if !bytes.HasPrefix(kid16[:], kidStart) {
+			msg := "unknown key ID"
+			log.Error(msg, "kid", kid16)
+			http.Error(w, msg, http.StatusBadRequest)
 			return
 		}
 		key := kidToKey(kid16)
